@@ -71,6 +71,7 @@ var phFallback = map[string][2]string{
 	"g_prom_start_fresh":    {": bool", "false"},
 	"g_prom_end_rule":       {": bool * bool", "(false, false)"},
 	"g_prom_locks":          {": list (str * bool)", "[]"},
+	"g_prom_session_key":    {": list str", "[]"},
 	"g_prom_dispatch":       {": list (str * list str)", "[]"},
 	"g_prom_client_forward": {": Z", "0"},
 	"g_prom_server_forward": {": Z", "0"},
@@ -563,6 +564,24 @@ func promExtras(repo string, files map[string]*ast.File) (map[string][]matched, 
 	if ok {
 		out = append(out, m)
 	}
+
+	// the key under which a session's bookkeeping is stored: every statement of
+	// simplePrometheusMiddlewareBase.ServeNostrStart that is not a dispatch to a counter and not
+	// the final return (reqID := uuid.NewString(); ctx = setRequestID(ctx, reqID))
+	add("g_prom_session_key", "simplePrometheusMiddlewareBase", "ServeNostrStart", "list str", func(fd *ast.FuncDecl) string {
+		var stmts []string
+		for _, s := range fd.Body.List {
+			txt := pr(s)
+			if es, ok := s.(*ast.ExprStmt); ok && strings.HasPrefix(pr(es.X), "m.") {
+				continue
+			}
+			if txt == "return ctx, nil" {
+				continue
+			}
+			stmts = append(stmts, txt)
+		}
+		return coqStrList(stmts)
+	})
 
 	// dispatch of simplePrometheusMiddlewareBase: which counters each method calls, and how
 	// many times the message itself is forwarded
